@@ -140,7 +140,7 @@ CHECKS = {
              "fail exactly the i-th. Oracle: exit codes 10 / 1 before any command, -c never runs the job, -r never builds, -d/-o respected, exit 0 implies this run's "
              "output (nonce + inputs) at the destination, any failed step implies non-zero exit and no fresh output.",
         design="DESIGN.md section 3 C16", technique="exhaustive enumeration of invocation histories x crash-point (single-fault) enumeration on the real scripts in a hermetic sandbox",
-        note="Trusted base: bash, coreutils, the stub tools (fail before effect, minimal faithful effect), unshare/chroot. One fault per history; dirname faults excluded (not a listed step)."),
+        note="Trusted base: bash, coreutils, the stub build tools (fail before effect, minimal faithful effect), the stand-in job frameworks and ROOT classes in mc/standin/jobfw, unshare/chroot. One fault per history; dirname faults excluded (not a listed step)."),
     "C17": dict(
         text="The real xAODDataset / CMSRun1AODDataset / CMSRun2miniAODDataset .value() is run, with a stand-in python_on_whales on sys.path, over the full product of "
              "8 file-list shapes (Path/str, several files, different directories, missing, empty, order) x default/custom image x docker metadata absent or at each "
@@ -185,6 +185,33 @@ ADDED = {
     "C14": "Also: earlier queries with blocks on the same executor (applied only / translated / failed), and include paths equal up to letter case.",
     "C17": "Also: a container that fails after it has put its result into /results, and earlier executions on another / on the very same dataset object (with and without docker metadata).",
 }
+ADDED2 = {
+    "C01": "Later additions: compound computed Aggregate seeds, one collection bound to a lambda parameter and used at several loop depths, list-literal rows whose columns live "
+           "in different blocks, property references on data members; and the rendered job configuration of every backend is EXECUTED against stand-in job frameworks "
+           "(mc/standin/jobfw) on inputs of 0-100 events in 1-3 files: every event of every listed file must be handed to the generated algorithm.",
+    "C02": "Later additions: sequence parameters used at two loop depths, property references, C10's enum programs (namespaces one to four deep).",
+    "C03": "Later additions: one value object supplying two or three columns; integer arithmetic with a literal beyond 32 bits (wide column or refusal).",
+    "C04": "End to end: the rendered runner.sh runs in the C16 sandbox with the analysis job failing (before and after it has written output) at each of its occurrences in "
+           "seven (thorough eleven) build / re-run histories per backend - the script must exit non-zero and deliver nothing for that run.",
+    "C06": "Later additions: one collection call bound to a lambda parameter and used at two loop depths (still one use: one token on miniAOD).",
+    "C07": "A docker query on an executor with an attached extended-metadata handler must see the handler unless a translation has completed on that executor since.",
+    "C08": "Also: the same Python ast with every group of equal sub-expressions shared as ONE node object.",
+    "C09": "Later additions: a keyword argument on every call of every host program; wrong label counts that repeated names collapse to the right number; Aggregate seeded with "
+           "a pointer-typed value.",
+    "C10": "Later additions: const in front of type names that start with c, o, n, s, t (and namespace-qualified ones); enums in namespaces up to four deep.",
+    "C11": "Later additions: arguments that are First() / index / aggregate values with the result used at the outer level; methods called on First(), indexed and fused "
+           "receivers; a function the query supplies under a documented math function's name.",
+    "C12": "Later additions: the later plain query after an earlier query declared its own function of that name; cmath in the translation unit on all three backends next to "
+           "inject_code blocks naming the header in any field.",
+    "C14": "Later additions: MetaData attached to the event inside the final lambda and inside a tuple element that is later discarded.",
+    "C15": "Later additions (through the executor): blocks with an empty script as dependencies, in chains and as conflicting duplicates.",
+    "C16": "The job step EXECUTES the rendered ATestRun_eljob.py / analyzer_cfg.py against stand-in EventLoop / cmsRun frameworks and the conversion step runs the rendered "
+           "copy_root_tree.C compiled against stand-in ROOT classes (mc/standin/jobfw); job tools and conversion can also fail AFTER writing their output; input paths with blanks.",
+    "C17": "Later additions: registry-with-port image names and a tag given without an image.",
+    "C18": "The string alphabet also holds / * # U+2028 U+0085 (comment openers, preprocessor, Unicode line boundaries).",
+}
+for _k, _v in ADDED2.items():
+    ADDED[_k] = (ADDED.get(_k, "") + " " + _v).strip()
 for _k, _v in ADDED.items():
     CHECKS[_k]["text"] += " " + _v
 
